@@ -170,6 +170,110 @@ func (p c09) mixin(c *core.Ctx) {
 	c.Nontrivial(fmt.Sprintf("mixin|%d|%s", variant, g.Sc.GraphSig()))
 }
 
+// factoryAware: an ordinary eager component that additionally implements ComponentFactoryPostProcessor or
+// DefinitionRegistryPostProcessor is a component like any other: an unsatisfiable required point, a missing
+// required value or a failing Init of it fails the start, and no runner runs.
+func (p c09) factoryAware(c *core.Ctx) {
+	g := world.NewG(c.Rng)
+	variant := c.Rng.Intn(4) // 0: satisfiable, 1: the named component is missing, 2: the key is missing, 3: Init fails
+	if variant != 1 {
+		g.AddNode([]int{8, 1, 0}[c.Rng.Intn(3)], "needy-dep")
+	}
+	g.AddNode(world.TypesRunner[c.Rng.Intn(len(world.TypesRunner))], g.FreshName(len(g.Sc.Nodes)))
+	for x := 0; x < c.Rng.Intn(3); x++ {
+		g.AddRandomNode(world.TypesEagerPlain, 0.2)
+	}
+	g.ShuffleOrders()
+	if variant != 2 {
+		g.Sc.Config = "needy:\n  key: v\n"
+	} else {
+		g.Sc.Config = "needy:\n  other: v\n"
+	}
+	var h any
+	var core_ *world.NeedyCore
+	if c.Rng.Intn(2) == 0 {
+		x := &world.NeedyFactoryAware{}
+		h, core_ = x, &x.NeedyCore
+	} else {
+		x := &world.NeedyRegistryAware{}
+		h, core_ = x, &x.NeedyCore
+	}
+	core_.FailInit = variant == 3
+	r := world.Start(g.Sc, world.Options{Extra: []any{h}})
+	c.Count("starts", 1)
+	c.Count("factory_aware_component_starts", 1)
+	detail := failDetail(g.Sc, r, map[string]any{"variant (0 satisfiable, 1 component missing, 2 key missing, 3 Init fails)": variant, "component": fmt.Sprintf("%T", h)})
+	if abnormal(r.Outcome()) {
+		c.Fail("", fmt.Sprintf("%T: %s", h, core.Short(r.OutcomeDetail(), 300)), detail)
+		return
+	}
+	runs := countEvents(r, "run")
+	if variant == 0 {
+		if r.Outcome() != "ok" || core_.Req == nil || core_.Cfg != "v" || core_.Inits != 1 {
+			c.Fail("", fmt.Sprintf("%T with satisfiable points: outcome %s, Req set=%v Cfg=%q Init ran %d time(s)", h, r.Outcome(), core_.Req != nil, core_.Cfg, core_.Inits), detail)
+			return
+		}
+	} else if r.Outcome() != "error" || runs != 0 {
+		c.Fail("", fmt.Sprintf("%T (an eager component) has an unsatisfiable required point / missing required value / failing Init (variant %d), but App.Run returned %s and %d runner(s) ran", h, variant, r.Outcome(), runs), detail)
+		return
+	}
+	c.Nontrivial(fmt.Sprintf("factoryaware|%d|%T|%s", variant, h, g.Sc.GraphSig()))
+}
+
+// optionalSelectors: optional points whose key (or name) is assembled with a placeholder that resolves to
+// nothing - the key then has an empty segment and cannot be found: the fields stay zero and the start
+// succeeds; with the selector configured the same points are bound.
+func (p c09) optionalSelectors(c *core.Ctx) {
+	g := world.NewG(c.Rng)
+	g.AddNode([]int{0, 1, 3}[c.Rng.Intn(3)], "mailer-dev")
+	g.AddNode(world.TypesRunner[c.Rng.Intn(len(world.TypesRunner))], g.FreshName(1))
+	g.ShuffleOrders()
+	configured := c.Rng.Intn(3) == 0
+	g.Sc.Config = "svc:\n  dev:\n    url: u-dev\n    timeout: 30\nmailer:\n  dev: mailer-dev\n"
+	if configured {
+		g.Sc.Config += "sel: dev\n"
+	}
+	forms := [][3]string{
+		{`value:"${svc.${sel}.url},required=false"`, `prop:"svc.${sel}.timeout,required=false"`, `wire:"${mailer.${sel}},required=false"`},
+		{`value:"${svc.${sel}.url:},required=false"`, `value:"${svc.${sel}.timeout},required=false"`, `wire:"${mailer.${sel}:},required=false"`},
+		{`prop:"svc.${sel}.url,required=false"`, `prefix:"svc.${sel}.timeout,required=false"`, `wire:"${mailer.${sel}},required=false"`},
+		{`value:"${${sel}.url},required=false"`, `prop:"${sel}.timeout,required=false"`, `wire:"${mailer.${sel}},required=false"`},
+	}
+	f := forms[c.Rng.Intn(len(forms))]
+	if f[0] == forms[3][0] && configured {
+		g.Sc.Config += "dev:\n  url: u-dev\n  timeout: 30\n"
+	}
+	h := world.NewHolder(world.BuildStruct([]world.FieldSpec{
+		{Name: "URL", Type: reflect.TypeOf(""), Tag: f[0]},
+		{Name: "Timeout", Type: reflect.TypeOf(0), Tag: f[1]},
+		{Name: "Mailer", Type: world.TypeIA, Tag: f[2]},
+	}))
+	r := world.Start(g.Sc, world.Options{Extra: []any{h}})
+	c.Count("starts", 1)
+	c.Count("optional_selector_starts", 1)
+	hv := reflect.ValueOf(h).Elem()
+	detail := failDetail(g.Sc, r, map[string]any{"tags": f, "selector_configured": configured, "fields": fmt.Sprintf("%+v", hv.Interface())})
+	if r.Outcome() != "ok" {
+		c.Fail("", fmt.Sprintf("optional points %v (selector configured: %v): App.Run %s", f, configured, core.Short(r.OutcomeDetail(), 300)), detail)
+		return
+	}
+	if runs := countEvents(r, "run"); runs != 1 {
+		c.Fail("", fmt.Sprintf("optional points %v: start succeeded but %d runner(s) ran", f, runs), detail)
+		return
+	}
+	if !configured {
+		// (the wire point's name resolves to the empty name: it is then a by-type point and may be satisfied)
+		if !hv.Field(0).IsZero() || !hv.Field(1).IsZero() {
+			c.Fail("", fmt.Sprintf("optional points %v with an unconfigured selector: fields were written: %+v", f, hv.Interface()), detail)
+			return
+		}
+	} else if hv.Field(0).String() != "u-dev" || hv.Field(1).Int() != 30 || hv.Field(2).IsNil() {
+		c.Fail("", fmt.Sprintf("optional points %v with the selector configured: fields hold %+v", f, hv.Interface()), detail)
+		return
+	}
+	c.Nontrivial(fmt.Sprintf("optsel|%v|%v|%s", f, configured, g.Sc.GraphSig()))
+}
+
 // arrays: an array-typed point ([2]I, [3]*T) can never be satisfied - the container fills slices, pointers
 // and interfaces. Required: Run returns an error; optional: the array stays zero. Never a panic, whether
 // matching components are registered or not.
@@ -261,6 +365,14 @@ func (p c09) cyclicConfig(c *core.Ctx) {
 }
 
 func (p c09) Run(c *core.Ctx) {
+	if c.Index%20 == 11 {
+		p.factoryAware(c)
+		return
+	}
+	if c.Index%20 == 1 {
+		p.optionalSelectors(c)
+		return
+	}
 	if c.Index%5 == 4 {
 		p.misfit(c)
 		return
